@@ -5,6 +5,29 @@ pub type Body = fn(&mut ReplaySource);
 
 pub fn bodies() -> Vec<(&'static str, Body)> {
     vec![
+        ("c20_rule_apply0_skip0", crate::c20_filters::c20_rule_apply0_skip0::<ReplaySource> as Body),
+        ("c20_config_apply0_skip0", crate::c20_filters::c20_config_apply0_skip0::<ReplaySource> as Body),
+        ("c20_rule_apply1_skip0", crate::c20_filters::c20_rule_apply1_skip0::<ReplaySource> as Body),
+        ("c20_config_apply1_skip0", crate::c20_filters::c20_config_apply1_skip0::<ReplaySource> as Body),
+        ("c20_rule_apply0_skip1", crate::c20_filters::c20_rule_apply0_skip1::<ReplaySource> as Body),
+        ("c20_config_apply0_skip1", crate::c20_filters::c20_config_apply0_skip1::<ReplaySource> as Body),
+        ("c20_rule_apply1_skip1", crate::c20_filters::c20_rule_apply1_skip1::<ReplaySource> as Body),
+        ("c20_config_apply1_skip1", crate::c20_filters::c20_config_apply1_skip1::<ReplaySource> as Body),
+        ("c20_rule_apply2_skip0", crate::c20_filters::c20_rule_apply2_skip0::<ReplaySource> as Body),
+        ("c20_config_apply2_skip0", crate::c20_filters::c20_config_apply2_skip0::<ReplaySource> as Body),
+        ("c20_rule_apply0_skip2", crate::c20_filters::c20_rule_apply0_skip2::<ReplaySource> as Body),
+        ("c20_config_apply0_skip2", crate::c20_filters::c20_config_apply0_skip2::<ReplaySource> as Body),
+        ("c20_rule_apply2_skip2", crate::c20_filters::c20_rule_apply2_skip2::<ReplaySource> as Body),
+        ("c20_config_apply2_skip2", crate::c20_filters::c20_config_apply2_skip2::<ReplaySource> as Body),
+        ("c20_rule_apply3_skip3", crate::c20_filters::c20_rule_apply3_skip3::<ReplaySource> as Body),
+        ("c20_config_apply3_skip3", crate::c20_filters::c20_config_apply3_skip3::<ReplaySource> as Body),
+        ("prec_left_binary", crate::c02_prec::prec_left_binary::<ReplaySource> as Body),
+        ("prec_left_unary", crate::c02_prec::prec_left_unary::<ReplaySource> as Body),
+        ("prec_left_if", crate::c02_prec::prec_left_if::<ReplaySource> as Body),
+        ("prec_right_binary", crate::c02_prec::prec_right_binary::<ReplaySource> as Body),
+        ("prec_right_unary", crate::c02_prec::prec_right_unary::<ReplaySource> as Body),
+        ("prec_right_if", crate::c02_prec::prec_right_if::<ReplaySource> as Body),
+        ("operator_tables", crate::c02_prec::operator_tables::<ReplaySource> as Body),
         ("ev_binary_logic", crate::c08_steps::ev_binary_logic::<ReplaySource> as Body),
         ("ev_binary_addsub", crate::c08_steps::ev_binary_addsub::<ReplaySource> as Body),
         ("ev_binary_arith", crate::c08_steps::ev_binary_arith::<ReplaySource> as Body),
